@@ -22,13 +22,15 @@ from harness import _build
 shims.patch(sgmod, np=shims.np_shim)
 shims.patch(locmod, np=shims.np_shim_obj)
 shims.patch(hexmod, np=shims.np_shim, sqrt=shims.math_shim.sqrt, isclose=shims.math_shim.isclose)
-shims.patch(cartmod, np=shims.np_shim, int=shims.int_shim)
+shims.patch(cartmod, np=shims.np_shim, int=shims.int_shim, math=shims.math_shim)
 shims.patch(hexagon, math=shims.math_shim, int=shims.int_shim)
 shims.patch(gridsmod, int=symstr.int_shim)
 
 STUBS = ["structuredGrid/locations/hexagonal/cartesian .np -> object-array aware numpy shim; hexagonal.sqrt -> algebraic",
          "grids.int -> int() of fixed-length symbolic decimal strings; cartesian.int -> truncation with a fresh Int",
-         "labels -> fixed-length symbolic strings (format-spec model validated against CPython)"]
+         "labels -> fixed-length symbolic strings (format-spec model validated against CPython)",
+         "cartesian.math -> proxy-aware math (unused by the current ring counting, which is pure integer arithmetic; "
+         "keeps a square-root based ring count executable on proxies)"]
 assert not symstr.selfcheck_format_model(["03d"])
 
 
@@ -316,3 +318,141 @@ def nested_native_coordinates_under_theta_rz(ctx):
     ctx.check_close("native global z = parent's z + local z", g[2], wantZ, scale=1000.0)
     ci = leaf.spatialLocator.getCompleteIndices()
     ctx.check("axial-in-radial nesting adds indices", ci[0] == ti and ci[1] == rj and ci[2] == k)
+
+
+# ---------------------------------------------------------------------------------------------------------------------
+# "a grid rebuilt from its stored constructor arguments gives the same coordinates and metadata for every index" holds
+# for the grid AS IT IS NOW, whatever was done to it before and however often its constructor arguments were already
+# asked for (every database snapshot asks for them): histories of in-place changes interleaved with reduce() calls.
+
+HISTORY_OPS = {
+    "hex": ["reduce", "pitch", "symmetry", "geomType", "offset", "snapshotInRetainedState"],
+    "hexCorners": ["reduce", "pitch", "symmetry", "geomType", "offset", "snapshotInRetainedState"],
+    "cart": ["reduce", "pitch", "symmetry", "geomType", "offset", "snapshotInRetainedState"],
+    "cartOffset": ["reduce", "pitch", "symmetry", "geomType", "offset", "snapshotInRetainedState"],
+    "axial": ["reduce", "bounds", "offset", "snapshotInRetainedState"],
+}
+
+
+def _apply_history_op(g, kind, op, a, b):
+    """one in-place change of the grid through the public API / the assignments armi itself performs"""
+    if op == "reduce":
+        g.reduce()                                   # e.g. a snapshot is written
+    elif op == "pitch":
+        g.changePitch(a) if kind.startswith("hex") else g.changePitch(a, b)
+    elif op == "bounds":
+        g._bounds = (None, None, [0.0, a, a + b])    # what Assembly.reestablishBlockOrder / axial expansion do
+    elif op == "symmetry":
+        if kind.startswith("hex"):
+            g.symmetry = "full" if "third" in str(g.symmetry) else "third periodic"
+        else:
+            g.symmetry = "full" if "quarter" in str(g.symmetry) else "quarter reflective"
+    elif op == "geomType":
+        g.geomType = "" if g._geomType else ("hex" if kind.startswith("hex") else "cartesian")
+    elif op == "offset":
+        g.offset = np.array((a, b, 0.0))
+    elif op == "snapshotInRetainedState":
+        g.backUp()
+        _apply_history_op(g, kind, "bounds" if kind == "axial" else "pitch", a, b)
+        g.reduce()
+        g.restoreBackup()
+    else:
+        raise AssertionError(op)
+
+
+@harness("C07", bounds="hex (both orientations), Cartesian (with/without centre offset) and bounds-defined axial grids with "
+                       "symbolic pitches / bounds; a history of nops in-place changes, each chosen symbolically among "
+                       "{reduce(), changePitch, symmetry setter, geomType setter, offset setter, direct _bounds assignment, "
+                       "backUp + change + reduce() + restoreBackup} with symbolic new values; symbolic index",
+         stubs=STUBS, max_paths=5000,
+         instances={"quick": [dict(kind=k, nops=2) for k in HISTORY_OPS],
+                    "thorough": [dict(kind=k, nops=3) for k in HISTORY_OPS]})
+def grid_rebuilt_from_constructor_arguments_is_the_current_grid_after_any_history(ctx, kind, nops):
+    i, j = ctx.int("i"), ctx.int("j")
+    k = int(ctx.int("k", 0, 1)) if kind == "axial" else ctx.int("k")
+    p, q = ctx.real("p", 0.01, 1000.0), ctx.real("q", 0.01, 1000.0)
+    vals = [(ctx.real("a%d" % m, 0.01, 1000.0), ctx.real("b%d" % m, 0.01, 1000.0)) for m in range(nops)]
+    ops = [ctx.choice("op%d" % m, HISTORY_OPS[kind]) for m in range(nops)]
+    if kind.startswith("hex"):
+        g = HexGrid.fromPitch(p, numRings=1, cornersUp=kind == "hexCorners", symmetry="third periodic")
+        idx = (i, j, k)
+    elif kind.startswith("cart"):
+        g = CartesianGrid.fromRectangle(p, q, numRings=1, isOffset=kind == "cartOffset", symmetry="quarter reflective")
+        idx = (i, j, k)
+    else:
+        g = AxialGrid(bounds=(None, None, [0.0, p, p + q]))
+        idx = (0, 0, k)
+    for op, (a, b) in zip(ops, vals):
+        _apply_history_op(g, kind, op, a, b)
+    g2 = type(g)(*g.reduce())
+    c1, c2 = g.getCoordinates(idx), g2.getCoordinates(idx)
+    b1, b2 = g.getCellBase(idx), g2.getCellBase(idx)
+    t1, t2 = g.getCellTop(idx), g2.getCellTop(idx)
+    big = p + q + sum(a + b for a, b in vals)
+    sc = big * (abs(i) + abs(j) + 2)
+    for m in range(3):
+        got = c2[m]
+        if ctx.canary and m == (2 if kind == "axial" else 0):
+            got = got + (ITE(vals[-1][0] > 500, 1, 0) if kind == "axial" else big * ITE(AND(i == 5, j == 5), 1, 0))
+        ctx.check_close("rebuilt grid: same centre (%d) as the current grid" % m, got, c1[m], scale=sc)
+        ctx.check_close("rebuilt grid: same base (%d) as the current grid" % m, b2[m], b1[m], scale=sc)
+        ctx.check_close("rebuilt grid: same top (%d) as the current grid" % m, t2[m], t1[m], scale=sc)
+        ctx.check_close("rebuilt grid: same offset (%d) as the current grid" % m, g2.offset[m], g.offset[m], scale=big)
+    ctx.check("rebuilt grid: same symmetry and geometry type as the current grid",
+              str(g2._symmetry) == str(g._symmetry) and g2._geomType == g._geomType)
+    ctx.check("rebuilt grid: same index bounds", g2.getIndexBounds() == g.getIndexBounds())
+    ctx.check("rebuilt grid: same axial-only classification", g2.isAxialOnly == g.isAxialOnly)
+
+
+# ---------------------------------------------------------------------------------------------------------------------
+# "the least number of rings holding n cells is exact" for Cartesian grids.  Independent oracle from the geometry of
+# the numbering: the first r rings are the central square of (2r-1)^2 cells when the axes pass through the centre cell
+# and of (2r)^2 cells when they pass between the four central cells.
+
+
+def _cells_in_rings(r, offset):
+    side = 2 * r if offset else 2 * r - 1
+    return side * side
+
+
+@harness("C07", bounds="Cartesian grid, through-centre and offset; n symbolic in 1..2500 (the ring count loops ring by "
+                       "ring: one path per ring) and, enumerated, every n in 1..64 run on plain integers", stubs=STUBS,
+         max_paths=5000, instances={"quick": [dict(offset=o, enumerate_n=e) for o in (False, True) for e in (False, True)]})
+def cartesian_min_rings_exact(ctx, offset, enumerate_n):
+    g = CartesianGrid.fromRectangle(1.0, 1.0, numRings=1, isOffset=offset)
+    n = ctx.int("n", 1, 64 if enumerate_n else 2500)
+    if enumerate_n:
+        n = int(n)          # forked: the real code then runs on a plain integer whatever arithmetic it uses
+    r = g.getMinimumRings(n)
+    if ctx.canary:
+        r = r + ITE(n == 36, 1, 0)
+    ctx.check("at least one ring", r >= 1)
+    ctx.check("r rings hold n cells", _cells_in_rings(r, offset) >= n)
+    ctx.check("one ring fewer does not", OR(r == 1, _cells_in_rings(r - 1, offset) < n))
+
+
+@harness("C07", bounds="Cartesian grid, through-centre and offset; ring r >= 1 unbounded", stubs=STUBS,
+         instances={"quick": [dict(offset=False), dict(offset=True)]})
+def cartesian_ring_sizes_are_differences_of_nested_squares(ctx, offset):
+    """the ring sizes the minimum-ring count is built from agree with the same central squares"""
+    g = CartesianGrid.fromRectangle(1.0, 1.0, numRings=1, isOffset=offset)
+    ring = ctx.int("ring", 1)
+    npos = g.getPositionsInRing(ring)
+    if ctx.canary:
+        npos = npos + ITE(ring == 7, 1, 0)
+    ctx.check_eq("ring r holds the cells of square r that are not in square r-1", npos,
+                 _cells_in_rings(ring, offset) - ITE(ring == 1, 0, _cells_in_rings(ring - 1, offset)))
+
+
+@harness("C07", bounds="Cartesian grid, through-centre and offset; |i|,|j| <= 10^6", stubs=STUBS,
+         instances={"quick": [dict(offset=False), dict(offset=True)]})
+def cartesian_ring_of_a_cell_is_its_enclosing_square(ctx, offset):
+    g = CartesianGrid.fromRectangle(1.0, 1.0, numRings=1, isOffset=offset)
+    i, j = ctx.int("i", -10 ** 6, 10 ** 6), ctx.int("j", -10 ** 6, 10 ** 6)
+    rc, _pos = g.getRingPos((i, j))
+    di = ITE(i >= 0, i, -i - 1) if offset else abs(i)
+    dj = ITE(j >= 0, j, -j - 1) if offset else abs(j)
+    want = MAX(di, dj) + 1
+    if ctx.canary:
+        want = want + ITE(AND(i == -3, j == 2), 1, 0)
+    ctx.check_eq("a cell's ring is the index of the smallest central square containing it", rc, want)
